@@ -1625,7 +1625,7 @@ func (h *fsmHandler) opensent(ctx context.Context) (bgp.FSMState, *fsmStateReaso
 			default:
 			}
 			if e != nil {
-				nextState, _, _ := fsm.handleOpen(e)
+				nextState, _, notif := fsm.handleOpen(e)
 				if nextState == bgp.BGP_FSM_OPENCONFIRM {
 					// collision detected
 					isDominant := fsm.isDominant(result.open.Body.(*bgp.BGPOpen))
@@ -1642,7 +1642,19 @@ func (h *fsmHandler) opensent(ctx context.Context) (bgp.FSMState, *fsmStateReaso
 						fsm.recvOpen = e.MsgData.(*bgp.BGPMessage)
 						fsm.lock.Unlock()
 					}
+				} else if notif != nil {
+					// what arrived on the incoming connection is not an acceptable OPEN:
+					// answer it there and go on with the outgoing connection
+					_ = fsm.sendNotification(incomingConn, notif)
+				} else {
+					incomingConn.Close()
 				}
+			} else {
+				// Nothing has arrived on the incoming connection yet. Only one connection
+				// is followed from here on, the one on which the OPEN exchange is complete;
+				// the other one must not be left open and unread (its reader is what the
+				// deferred clean-up of this state waits for).
+				incomingConn.Close()
 			}
 			b, _ := bgp.NewBGPKeepAliveMessage().Serialize()
 			fsm.conn.SetWriteDeadline(time.Now().Add(time.Second))
